@@ -32,9 +32,9 @@ def _reexec():
 
 
 QUICK_RUNS = {
-    "C01": 24000, "C02": 32000, "C03": 28000, "C04": 28000, "C05": 24000,
+    "C01": 24000, "C02": 32000, "C03": 28000, "C04": 20000, "C05": 24000,
     "C06": 12000, "C07": 32000, "C08": 28000, "C10": 16000, "C11": 8000,
-    "C12": 4000, "C13": 1200, "C14": 32000, "C15": 28000, "C16": 24000,
+    "C12": 4000, "C13": 1200, "C14": 32000, "C15": 20000, "C16": 14000,
 }
 
 LEVEL = {
